@@ -64,6 +64,8 @@ class Execution:
 
     def __init__(self, desc, dev=(), monitor_classes=(), shim=None, drive=None, keep_world=True):
         self.desc = desc
+        # (scale worlds - hundreds of demes, tens of thousands of evaluations, monitors that rescan everything at each boundary - name a larger cap)
+        self.time_cap = float(desc.get("time_cap", self.TIME_CAP))
         self.dev = [tuple(p) for p in dev]
         self.monitor_classes = list(monitor_classes)
         self.shim = shim
@@ -108,7 +110,7 @@ class Execution:
         if threading.current_thread() is threading.main_thread():
             try:
                 old = signal.signal(signal.SIGPROF, self._alarm)
-                signal.setitimer(signal.ITIMER_PROF, self.TIME_CAP * 1.5)
+                signal.setitimer(signal.ITIMER_PROF, self.time_cap * 1.5)
                 armed = True
             except (ValueError, OSError):
                 armed = False
@@ -168,7 +170,7 @@ class Execution:
         self.tree = tree = w.tree
 
         def cap(level, x, v):
-            if len(w.log) > self.EVAL_CAP or time.process_time() - t0 > self.TIME_CAP:
+            if len(w.log) > self.EVAL_CAP or time.process_time() - t0 > self.time_cap:
                 raise Abort("eval/time cap")
 
         w.log.hooks.append(cap)
